@@ -740,7 +740,6 @@ class _Exporter:
             result.append(line)
 
         opset_name = self._make_opset_name(funproto.domain, 1)
-        add_line(f"@script({opset_name})")
         fun_name = self._make_callee_name(funproto.domain, 1, funproto.name)
         fun_sig = self._translate_function_signature(funproto)
         add_line(f"def {fun_name}{fun_sig}")
@@ -752,7 +751,25 @@ class _Exporter:
         return_values = ", ".join(self._translate_onnx_var(x) for x in funproto.output)
         add_line(f"    return {return_values}")
         self._name_remappings.pop()
-        return "\n".join(result)
+        default_opset = self._default_opset_argument(opsets, "\n".join(result))
+        if default_opset:
+            default_opset = ", " + default_opset
+        return "\n".join([f"@script({opset_name}{default_opset})", *result])
+
+    def _default_opset_argument(self, opsets: dict[str, int], body: str) -> str:
+        """The default_opset argument of the script decorator, when it is needed.
+
+        The decorator takes the default opset from the opsets used in the body. A body
+        that mentions none - only operators rendered in infix form, or calls of other
+        functions - needs it spelled out.
+        """
+        std_domain = next((d for d in ("", "ai.onnx") if d in opsets), None)
+        if std_domain is None:
+            return ""
+        std_opset = self._make_opset_name(std_domain, opsets[std_domain])
+        if f"{std_opset}." in body:
+            return ""
+        return f"default_opset={std_opset}"
 
     def _translate_graph(self, model: onnx.ModelProto, function_name: Optional[str]) -> str:
         graph = model.graph
@@ -781,7 +798,7 @@ class _Exporter:
         return_values = ", ".join(self._translate_onnx_var(x) for x in graph.output)
         signature = _translate_signature(graph.input, graph.output, self._translate_onnx_var)
         self._name_remappings.pop()
-        add(f"{indent}@script()")
+        add(f"{indent}@script({self._default_opset_argument(opsets, body)})")
         add(f"{indent}def {function_name}{signature}")
         indent = indent + _SINGLE_INDENT
         doc = graph.doc_string
